@@ -8,6 +8,8 @@
 //!         "script":[REPLY,...]}   REPLY = {"r":"ok"|"<fault name>","delay_ms":d}
 //!   fault names: overloaded bootstrapping unavailable read_timeout read_timeout_incomplete write_timeout_batchlog
 //!                write_timeout_simple server_error truncate read_failure write_failure invalid syntax unauthorized drop
+//!                orphan_break (never answered; with "orphans":N the harness first sends N statements that are never answered and
+//!                gives up on each after 60 ms, so that the driver itself breaks the connection under the request)
 //!   frames beyond the script are answered "ok" at once.
 //! Output: {"id":N,"start_err":"","ok":0|1,"err":"","frames":[{"i":k,"node":n,"cl":u16,"reply":name,"t_in":us,"t_out":us}...]}
 use std::io::{BufRead, Write};
@@ -22,6 +24,34 @@ use crate::mock::{Action, MockCluster, MockColumn, MockConfig, MockKeyspace, Moc
 
 const PORT: u16 = 19406;
 const TEXT: &str = "UPDATE ks.t SET b = ? WHERE a = ?";
+
+/// Load balancing for the orphan scenarios: the given hosts, in this order.
+#[derive(Debug)]
+struct InOrder {
+    order: Vec<uuid::Uuid>,
+}
+
+impl scylla::policies::load_balancing::LoadBalancingPolicy for InOrder {
+    fn pick<'a>(
+        &'a self,
+        _request: &'a scylla::policies::load_balancing::RoutingInfo,
+        cluster: &'a scylla::cluster::ClusterState,
+    ) -> Option<(scylla::cluster::NodeRef<'a>, Option<scylla::routing::Shard>)> {
+        self.order.first().and_then(|id| cluster.get_nodes_info().iter().find(|n| n.host_id == *id)).map(|n| (n, None))
+    }
+
+    fn fallback<'a>(
+        &'a self,
+        _request: &'a scylla::policies::load_balancing::RoutingInfo,
+        cluster: &'a scylla::cluster::ClusterState,
+    ) -> scylla::policies::load_balancing::FallbackPlan<'a> {
+        Box::new(self.order.iter().filter_map(move |id| cluster.get_nodes_info().iter().find(|n| n.host_id == *id)).map(|n| (n, None)))
+    }
+
+    fn name(&self) -> String {
+        "E2EInOrder".to_string()
+    }
+}
 
 struct Model {
     script: Vec<(String, u64)>,
@@ -48,6 +78,8 @@ impl Model {
                 let int = type_bytes("int").unwrap();
                 Action::Reply(Reply::Prepared { id: stable_id(text.as_bytes()), result_metadata_id: None, pk_indexes: vec![1], bind_cols: vec![("b".into(), int.clone()), ("a".into(), int)], result_cols: vec![], ks: "ks".into(), table: "t".into() })
             }
+            // noise: statements the node never answers (they become orphaned stream ids once their callers give up); not recorded
+            7 if req.query.as_deref().map(|q| q.contains("noise")).unwrap_or(false) => Action::Never,
             7 | 10 | 13 => {
                 let (name, delay) = self.script.get(self.next).cloned().unwrap_or(("ok".into(), 0));
                 let i = self.next;
@@ -76,6 +108,9 @@ impl Model {
                     "read_failure" => error(0x1300, [&cl2[..], &[0, 0, 0, 0, 0, 0, 0, 1, 0, 0, 0, 1, 0]].concat()),
                     "write_failure" => error(0x1500, [&cl2[..], &[0, 0, 0, 0, 0, 0, 0, 1, 0, 0, 0, 1], &string("SIMPLE")[..]].concat()),
                     "drop" => return Action::Reset,
+                    // never answered: the connection is torn down by the driver itself once too many old orphaned stream ids
+                    // have piled up on it (scenario field `orphans`)
+                    "orphan_break" => return Action::Never,
                     _ => error(0x0000, vec![]),
                 };
                 if delay > 0 { Action::DelayMs(delay, Box::new(Action::Reply(reply))) } else { Action::Reply(reply) }
@@ -196,6 +231,21 @@ async fn run_scenario(sc: &Value) -> Value {
             return fail(format!("prepare: {e}"));
         }
     };
+    // orphans: so many statements that are never answered and whose callers give up after 60 ms that ONE node's connection
+    // carries more old orphaned stream ids than the driver tolerates (1024, older than 1 s); the request then goes to that node
+    // first and has the other two (healthy) nodes behind it in its plan
+    let orphans = sc["orphans"].as_u64().unwrap_or(0) as usize;
+    let mut prepared = prepared;
+    if orphans > 0 {
+        let hosts: Vec<uuid::Uuid> = session.get_cluster_state().get_nodes_info().iter().map(|n| n.host_id).collect();
+        let mut noise = Statement::new("SELECT noise FROM ks.t");
+        noise.set_request_timeout(Some(Duration::from_millis(60)));
+        noise.set_retry_policy(Some(Arc::new(FallthroughRetryPolicy::new())));
+        noise.set_load_balancing_policy(Some(Arc::new(InOrder { order: vec![hosts[0]] })));
+        prepared.set_load_balancing_policy(Some(Arc::new(InOrder { order: hosts.clone() })));
+        let futs: Vec<_> = (0..orphans).map(|_| session.query_unpaged(noise.clone(), ())).collect();
+        let _ = futures::future::join_all(futs).await;
+    }
     {
         let mut m = model.lock().unwrap();
         m.frames.clear();
